@@ -634,7 +634,9 @@ pub fn scenarios(seed: u64, quick: bool) -> Vec<Scenario> {
             idx: 0,
             total: matching(n, o),
         };
-        if s.requests() > max_requests {
+        // random triples: shorter scans than the grid allows (the long
+        // small-limit scans of large collections are grid points already)
+        if s.requests() > max_requests.min(1_500) {
             continue;
         }
         out.push(s);
